@@ -48,6 +48,10 @@ type batch struct {
 	IV    []byte     `json:"iv"`
 	Agent uint32     `json:"agent"`
 	Tasks []taskSpec `json:"tasks"`
+	// Prior: session keys of other agents that were tasked in this process before this one
+	// (keys related to Key: same first half, same but for the last byte, ...). Whatever the
+	// teamserver keeps per key must be kept per whole key.
+	Prior [][]byte `json:"prior_keys,omitempty"`
 }
 
 func le32(v uint32) []byte { b := make([]byte, 4); binary.LittleEndian.PutUint32(b, v); return b }
@@ -374,6 +378,26 @@ func genBatch(rng *rand.Rand, thorough bool) batch {
 		for i := range b.IV {
 			b.IV[i] = 0xff
 		}
+	case 2, 3: // a key related to one that another agent of this process used before
+		prior := make([]byte, 32)
+		rng.Read(b.Key)
+		rng.Read(b.IV)
+		switch rng.Intn(4) {
+		case 0: // same first 16 bytes
+			rng.Read(prior)
+			copy(prior[:16], b.Key[:16])
+		case 1: // same but for the last byte
+			copy(prior, b.Key)
+			prior[31] ^= byte(1 + rng.Intn(255))
+		case 2: // the all-zero key before a key whose first half is zero
+			for i := 0; i < 16; i++ {
+				b.Key[i] = 0
+			}
+		default: // same second half
+			rng.Read(prior)
+			copy(prior[16:], b.Key[16:])
+		}
+		b.Prior = [][]byte{prior}
 	default:
 		rng.Read(b.Key)
 		rng.Read(b.IV)
@@ -413,8 +437,24 @@ func run(c *lib.Ctx) {
 		c.Eval()
 		c.DistinctBytes(js)
 		c.SampleSome(400, func() any { return shrinkForSample(b) })
+		for _, pk := range b.Prior {
+			// another agent with the related key is tasked first (its own teamserver: what is
+			// shared between the two is process-wide state only)
+			if w0, err := newWorld(c, pk, b.IV, b.Agent^0x00010000); err == nil {
+				rig.Task(w0.r.TS, w0.sim.Hex(), 11, 0x77, map[string]any{"Arguments": "5;5"})
+				w0.sim.Checkin(w0.h.GinEngine)
+				w0.r.Close()
+				c.Observe("related-key-used-before", 1)
+			}
+		}
 		w, err := newWorld(c, b.Key, b.IV, b.Agent)
 		if err != nil {
+			if len(b.Prior) > 0 && strings.HasPrefix(err.Error(), "registration failed") {
+				// the reference registration is the same as in every other batch; only the key
+				// differs, and only in its relation to a key used before
+				c.Violation("session-key:registration-rejected-after-related-key", "the registration of an agent is rejected ("+err.Error()+") after another agent whose session key shares a part of this agent's key was handled by this process: no task can be issued for this key", b)
+				return
+			}
 			c.Inconclusive(err.Error())
 			return
 		}
